@@ -7,7 +7,9 @@ import shlex
 
 from . import model as M
 from . import sim
-from .obs import RunObs, Violation, fail_skip_sets, strip
+from .obs import RunObs, Violation, fail_skip_sets, strip, exec_path_exists, hidden_skips
+
+HID = " [only-through-cached-experiment]"
 from .scenario import split_tid
 
 
@@ -123,6 +125,7 @@ def check_C01(run):
         exits = {}     # task -> list of statuses (in order)
         started = {}   # task -> list of start trace indices
         all_starts = [(ti, t) for ti, k, t, x in o.events if k == "start"]
+        executed = {t2 for _, t2 in all_starts} | {t2 for _, kind, t2, _, _ in o.printed if kind == "running"}
         pairs = 0
         for ti, k, t, x in o.events:
             if k == "start":
@@ -134,22 +137,23 @@ def check_C01(run):
                     if not d_runs_here:
                         continue
                     pairs += 1
+                    hid = "" if exec_path_exists(tasks, t, d, executed) else HID
                     # every execution of d must have exited 0 before now, none running
                     if any(task == d for task in running.values()):
-                        V.append(Violation("C01", "dependent-started-while-dependency-running",
+                        V.append(Violation("C01", "dependent-started-while-dependency-running" + hid,
                                            {"task": t, "dep": d}, i))
                     d_starts = [s for s, t2 in all_starts if t2 == d]
                     if any(s > ti for s in d_starts):
-                        V.append(Violation("C01", "dependency-started-after-dependent",
+                        V.append(Violation("C01", "dependency-started-after-dependent" + hid,
                                            {"task": t, "dep": d}, i))
                     elif tasks[d]["kind"] in ("exp", "cmd"):
                         sts = exits.get(d, [])
                         n_started_before = len([s for s in d_starts if s < ti])
                         if len(sts) < n_started_before and not any(task == d for task in running.values()):
-                            V.append(Violation("C01", "dependent-started-before-dependency-exit",
+                            V.append(Violation("C01", "dependent-started-before-dependency-exit" + hid,
                                                {"task": t, "dep": d}, i))
                         if any(s != 0 for s in sts):
-                            V.append(Violation("C01", "dependent-started-after-dependency-failed",
+                            V.append(Violation("C01", "dependent-started-after-dependency-failed" + hid,
                                                {"task": t, "dep": d, "statuses": sts}, i))
                 if x["proc"]:
                     running[x["name"]] = t
@@ -275,9 +279,11 @@ def check_C03(run):
         F, S = fail_skip_sets(o, needed, extra_fail=extra & needed)
         started = set(o.started_tasks())
         stop_early = bool(flags.get("stop_early"))
+        SH = hidden_skips(tasks, needed, F, S)
         if not stop_early:
             for t in sorted(S & started):
-                V.append(Violation("C03", "dependent-of-failed-task-started", {"task": t}, i))
+                V.append(Violation("C03", "dependent-of-failed-task-started" + (HID if t in SH else ""),
+                                   {"task": t}, i))
             for t in sorted((needed - S) - started):
                 V.append(Violation("C03", "independent-task-not-run-after-failure" if F else "needed-task-not-run",
                                    {"task": t}, i))
@@ -286,10 +292,16 @@ def check_C03(run):
                     V.append(Violation("C03", "exit-zero-despite-failure", {"failed": sorted(F)}, i))
                 rf = o.report_failed
                 if rf is None or sorted(rf) != sorted(F):
-                    V.append(Violation("C03", "failed-report-differs", {"reported": rf, "expected": sorted(F)}, i))
+                    hid = HID if rf is not None and set(F) <= set(rf) and set(rf) - set(F) <= SH else ""
+                    V.append(Violation("C03", "failed-report-differs" + hid,
+                                       {"reported": rf, "expected": sorted(F)}, i))
                 rs = o.report_skipped or []
                 if sorted(rs) != sorted(S):
-                    V.append(Violation("C03", "skipped-report-differs", {"reported": rs, "expected": sorted(S)}, i))
+                    # tasks behind a started hidden task follow that task's real outcome
+                    SHX = SH | {t for t in S if M.trans_deps(tasks, t) & SH}
+                    hid = HID if set(S) - SHX <= set(rs) and set(rs) <= set(S) else ""
+                    V.append(Violation("C03", "skipped-report-differs" + hid,
+                                       {"reported": rs, "expected": sorted(S)}, i))
             else:
                 if inv.code != 0:
                     V.append(Violation("C03", "exit-nonzero-without-failure", {"code": inv.code,
